@@ -14,6 +14,12 @@ cookie returned by filter_cookies(url) is traced to its origin and judged agains
 
 A sample of histories additionally runs through a real ClientSession (MemConnector + scripted in-memory
 server) and judges the Cookie header read off the wire.
+
+Re-issued cookies: a history may set an earlier cookie again with the same name and value and only its
+attributes edited (Secure / HttpOnly / SameSite, Max-Age / Expires changed or dropped, Domain attribute added /
+removed / respelled, Path respelled), from the same or a related URL.  The value then names all editions: a
+returned name=value is justified by any stored reference cookie with that name and value that may go to the
+URL, and the reference store - which always keeps the latest edition - decides (strata `reissue`, `pair`).
 """
 
 from __future__ import annotations
@@ -40,24 +46,26 @@ TECHNIQUE = (
 )
 LEVEL_TEXT = (
     "Exploration: generated histories (Set-Cookie responses, clock advances, clears, save+load, queries) over an "
-    "11-host x 2-scheme x 5-path lattice (plus the query-only host 0.0.1) are run through the real CookieJar; every history ends with a query of the "
+    "11-host x 2-scheme x 5-path lattice (plus the query-only host 0.0.1; ws / wss requests on two paths) are run through the real CookieJar; every history ends with a query of the "
     "whole lattice; every returned cookie is traced by its unique value to the Set-Cookie that created it and judged by "
-    "an independent RFC 6265 store; the single-cookie sub-space is enumerated exhaustively. Says: held / violated on "
+    "an independent RFC 6265 store; the single-cookie sub-space and the same-cookie-set-twice sub-space (both headers over Domain x Path x Secure x Max-Age) are enumerated exhaustively. Says: held / violated on "
     "these histories; nothing about unexplored histories, other hosts or malformed cookie syntax."
 )
 RULE = (
     "histories of 6-20 ops (set 1-3 Set-Cookie headers from a response URL, fed as ClientSession does via "
-    "update_cookies_from_headers or as a SimpleCookie built like ClientResponse.cookies | the same response again | "
+    "update_cookies_from_headers or as a SimpleCookie built like ClientResponse.cookies | the same response again | an earlier cookie "
+    "re-issued with the same name and value and edited attributes (Secure, HttpOnly, SameSite, Max-Age/Expires, Domain, Path, order) "
+    "from the same URL / other scheme / other path / related host | "
     "advance clock | clear | clear(predicate) | clear_domain | save+load into a fresh jar, sometimes with other options | "
     "filter_cookies query) from a conservative Set-Cookie grammar (token names, unique-id values, Domain {none, self, "
-    "parent, TLD, child, sibling, look-alike suffix, IP, foreign; leading/trailing dot; 4% upper-case outside the clean "
-    "stratum}, Path, Secure, Max-Age {positive, 0, negative, garbage, huge}, Expires {future, now, past, garbage}, "
+    "parent, TLD, child, sibling, look-alike suffix, IP, foreign; leading/trailing dot; 8% upper-case in half of the histories "
+    "outside the clean and reissue strata - those histories have no re-issues}, Path, Secure, Max-Age {positive, 0, negative, garbage, huge}, Expires {future, now, past, garbage}, "
     "attribute names in mixed case) over hosts {example.com, www., a.www., ftp., ample.com, xexample.com, example.org, "
     "com, 127.0.0.1, [::1], localhost} x {http, https} x {/, /x, /x/, /x/y, /xy} (8% on port 8080), jar options unsafe / "
-    "treat_as_secure_origin; every history ends with a sweep of all 120 lattice URLs. Strata: clean (history free of "
+    "treat_as_secure_origin; queries over http / https / ws / wss; every history ends with a sweep of all 168 lattice URLs. Strata: clean (history free of "
     "every structural trigger pattern of the listed findings: any violation there is unlisted by construction), free "
     "(unconstrained), same-name stress (one or two names, one host chain, many expiries), single-cookie lattice (26 180 "
-    "jars, exhaustive), wire (ClientSession over MemConnector, Cookie header read by a scripted server). A violation of a "
+    "jars, exhaustive), reissue (two names, one host chain, 30% re-issues), pair (one cookie set twice, 10 368 jars, exhaustive), wire (ClientSession over MemConnector, Cookie header read by a scripted server). A violation of a "
     "listed kind whose trigger pattern is absent from its history gets the suffix ':without-known-trigger'. non-trivial "
     "= the reference stored a cookie and sent one in some query; distinct = distinct (options, op list)"
 )
@@ -98,11 +106,18 @@ HOSTS = [
     "localhost",
 ]
 SCHEMES = ["http", "https"]
+# requests also go out over ws / wss (ClientSession.ws_connect attaches cookies the same way; RFC 6265 5.4 "secure
+# protocol" is defined by the user agent: https and wss)
+WS_SCHEMES = ["ws", "wss"]
+QUERY_SCHEMES = ["http", "http", "http", "https", "https", "https", "ws", "wss"]
 PATHS = ["/", "/x", "/x/", "/x/y", "/xy"]
+WS_SWEEP_PATHS = ["/", "/x/y"]
 NAMES = ["a", "b", "c", "sid"]
 # the sweep also asks for "0.0.1", the dotted suffix of the IP host: not an IP address itself, so a cookie that a
 # response from 127.0.0.1 managed to set for Domain=0.0.1 (5.1.3: no suffix matching for IP hosts) would show there
-SWEEP = [f"{s}://{h}{p}" for h in HOSTS + ["0.0.1"] for s in SCHEMES for p in PATHS]
+SWEEP = [f"{s}://{h}{p}" for h in HOSTS + ["0.0.1"] for s in SCHEMES for p in PATHS] + [
+    f"{s}://{h}{p}" for h in HOSTS + ["0.0.1"] for s in WS_SCHEMES for p in WS_SWEEP_PATHS
+]
 SECURE_ORIGIN_CHOICES = [
     "http://example.com",
     "http://www.example.com",
@@ -270,7 +285,16 @@ class Gen:
         self.set_ops: list[dict] = []
         # clean stratum bookkeeping: every cookie the reference would have stored so far
         self.would_store: list = []
-        if stratum == "stress":
+        # A history has either upper-case Domain attributes (the trigger of the listed finding "upper-case Domain
+        # attribute is refused", whose knock-on is that the *previous* cookie keeps being sent) or re-issued cookies
+        # (same name and value, edited attributes), never both: with both, which edition of a value the jar is
+        # sending cannot be told apart from that finding's knock-on.
+        self.allow_upper = stratum not in ("clean", "reissue") and rng.random() < 0.5
+        if stratum == "reissue":
+            self.names = ["a", "sid"]
+            chain = ["example.com", "www.example.com", "a.www.example.com", "ftp.example.com"]
+            self.hosts = chain if rng.random() < 0.8 else chain + [rng.choice(HOSTS)]
+        elif stratum == "stress":
             self.names = ["a"] if rng.random() < 0.6 else ["a", "b"]
             chain = ["example.com", "www.example.com", "a.www.example.com", "ftp.example.com"]
             self.hosts = chain if rng.random() < 0.7 else chain + [rng.choice(HOSTS)]
@@ -279,11 +303,11 @@ class Gen:
             self.hosts = HOSTS
 
     # -- pieces --------------------------------------------------------------------------------
-    def url(self, host=None):
+    def url(self, host=None, schemes=SCHEMES):
         r = self.rng
         host = host or r.choice(self.hosts)
         port = ":8080" if r.random() < 0.08 else ""
-        return f"{r.choice(SCHEMES)}://{host}{port}{r.choice(PATHS)}"
+        return f"{r.choice(schemes)}://{host}{port}{r.choice(PATHS)}"
 
     def domain_attr(self, host: str):
         r = self.rng
@@ -329,7 +353,7 @@ class Gen:
             d, kind = d + ".", kind + "+trailing-dot"
         elif w < 0.25:
             d, kind = "." + d + ".", kind + "+both-dots"
-        if self.stratum != "clean" and r.random() < 0.04 and d.lower() != d.upper():
+        if self.allow_upper and r.random() < 0.08 and d.lower() != d.upper():
             # RFC 6265 5.2.3: the Domain attribute value is converted to lower case
             d, kind = (d.upper() if r.random() < 0.5 else d.title()), kind + "+upper-case"
         return d, kind
@@ -374,6 +398,11 @@ class Gen:
             attrs.append(("Path", r.choice(["/", "/", "/x", "/x", "/x/", "/x/y", "/xy", "x"])))
         if r.random() < 0.25:
             attrs.append(("Secure", None))
+        w = r.random()
+        if w < 0.08:
+            attrs.append(("HttpOnly", None))
+        elif w < 0.14:
+            attrs.append(("SameSite", r.choice(["Lax", "Strict", "None"])))
         e, ekind = self.expiry_attrs()
         attrs.extend(e)
         r.shuffle(attrs)
@@ -390,7 +419,7 @@ class Gen:
     # -- ops -----------------------------------------------------------------------------------
     def op_set(self, interp):
         r = self.rng
-        url = self.url()
+        url = self.url(schemes=WS_SCHEMES if r.random() < 0.05 else SCHEMES)
         host = R.split_url(url)[1]
         mode = "mapping" if r.random() < 0.3 else "headers"
         n = r.choice([1, 1, 1, 1, 1, 1, 1, 2, 2, 3])
@@ -416,6 +445,137 @@ class Gen:
         op["_kinds"] = kinds
         return op
 
+    # -- the same cookie once more, only its attributes changed -------------------------------------
+    _ATTR_SPELLING = {
+        "domain": "Domain",
+        "path": "Path",
+        "secure": "Secure",
+        "httponly": "HttpOnly",
+        "samesite": "SameSite",
+        "max-age": "Max-Age",
+        "expires": "Expires",
+    }
+    _REISSUE_EDITS = ["secure", "secure", "secure", "secure", "httponly", "samesite", "expiry", "expiry", "expiry", "domain", "domain", "path", "path", "order"]
+
+    def reissue_header(self, header: str, host: str, rpath: str):
+        """`header` (an earlier Set-Cookie of this history) with the same name and value and 1-2 attribute edits:
+        Secure / HttpOnly added or removed, SameSite changed, Max-Age / Expires changed or dropped, Domain attribute
+        added / removed / respelled, Path attribute added / removed / respelled.  -> (header, [edit kinds])."""
+        r = self.rng
+        p = R.parse_set_cookie(header)
+        attrs = [[self._ATTR_SPELLING.get(n, n), (v if v != "" or n in ("domain", "path", "max-age", "expires", "samesite") else None)] for n, v in p.attrs]
+        for a in attrs:
+            if a[0] in ("Secure", "HttpOnly"):
+                a[1] = None
+
+        def has(name):
+            return any(a[0] == name for a in attrs)
+
+        def drop(*names):
+            attrs[:] = [a for a in attrs if a[0] not in names]
+
+        def get(name):
+            return next((a[1] for a in attrs if a[0] == name), None)
+
+        hb = bare(host)
+        labels = hb.split(".")
+        kinds = []
+        for edit in r.sample(self._REISSUE_EDITS, r.choice([1, 1, 1, 2])):
+            if edit in ("secure", "httponly"):
+                nm = self._ATTR_SPELLING[edit]
+                if has(nm):
+                    drop(nm)
+                    kinds.append(edit + "-removed")
+                else:
+                    attrs.append([nm, None])
+                    kinds.append(edit + "-added")
+            elif edit == "samesite":
+                cur = get("SameSite")
+                new = r.choice([x for x in (None, "Lax", "Strict", "None") if x != cur])
+                drop("SameSite")
+                if new is not None:
+                    attrs.append(["SameSite", new])
+                kinds.append("samesite-" + ("removed" if new is None else ("added" if cur is None else "changed")))
+            elif edit == "expiry":
+                had = has("Max-Age") or has("Expires")
+                drop("Max-Age", "Expires")
+                new, ekind = ([], "none") if (had and r.random() < 0.45) else self.expiry_attrs()
+                attrs.extend([k, v] for k, v in new)
+                kinds.append("expiry-" + ("dropped" if had and not new else ("changed" if had else ("added" if new else "still-none"))))
+            elif edit == "domain":
+                cur = get("Domain")
+                drop("Domain")
+                if cur is not None and r.random() < 0.5:
+                    kinds.append("domain-attr-removed")
+                elif cur is not None:
+                    d = cur[1:] if cur.startswith(".") else "." + cur
+                    attrs.append(["Domain", d])
+                    kinds.append("domain-attr-respelled(leading-dot)")
+                else:
+                    d = hb if (r.random() < 0.6 or R.is_ip(hb) or len(labels) < 3) else ".".join(labels[1:])
+                    attrs.append(["Domain", d])
+                    kinds.append("domain-attr-added")
+            elif edit == "path":
+                cur = get("Path")
+                drop("Path")
+                w = r.random()
+                if cur is not None and w < 0.35:
+                    kinds.append("path-attr-removed")
+                elif cur is not None and w < 0.7 and cur.startswith("/") and cur != "/":
+                    attrs.append(["Path", cur[:-1] if cur.endswith("/") else cur + "/"])
+                    kinds.append("path-attr-respelled(trailing-slash)")
+                elif cur is None and w < 0.6:
+                    attrs.append(["Path", R.default_path(rpath)])
+                    kinds.append("path-attr-added(default-path-spelled-out)")
+                else:
+                    attrs.append(["Path", r.choice(["/", "/x", "/x/", "/x/y", "/xy"])])
+                    kinds.append("path-attr-changed")
+            else:
+                r.shuffle(attrs)
+                kinds.append("attribute-order")
+        parts = [f"{p.name}={p.value}"]
+        for k, v in attrs:
+            w = r.random()
+            if w < 0.1:
+                k = k.lower()
+            elif w < 0.14:
+                k = k.upper()
+            parts.append(k if v is None else f"{k}={v}")
+        return "; ".join(parts), kinds
+
+    def op_reissue(self, interp):
+        """A response that sets an earlier cookie again: same name and value, attributes edited; it comes from the
+        same URL, from the same host over another scheme / another path, or from a related host."""
+        r = self.rng
+        if not self.set_ops:
+            return None
+        for _try in range(6):
+            src = r.choice(self.set_ops)
+            header = r.choice(src["headers"])
+            scheme, host, port, rpath = R.split_url(src["url"])
+            host_s = f"[{host}]" if ":" in host else host
+            w = r.random()
+            if w < 0.45:
+                url = src["url"]
+            elif w < 0.80:
+                other = {"http": ["https", "https", "wss"], "https": ["http", "http", "ws"], "ws": ["wss", "https"], "wss": ["ws", "http"]}[scheme]
+                url = f"{r.choice(other)}://{host_s}{rpath}"
+            elif w < 0.90:
+                url = f"{scheme}://{host_s}{r.choice(PATHS)}"
+            else:
+                rel = [x for x in self.hosts if bare(x) == host or bare(x).endswith("." + host) or host.endswith("." + bare(x))]
+                url = f"{r.choice(SCHEMES)}://{r.choice(rel or [host_s])}{rpath}"
+            h, kinds = self.reissue_header(header, R.split_url(url)[1], R.split_url(url)[3])
+            if self.stratum == "clean" and not self._clean_ok(interp, [h], url):
+                continue
+            mode = "mapping" if r.random() < 0.3 else "headers"
+            op = {"op": "set", "url": url, "headers": [h], "mode": mode, "reissue": True}
+            self.set_ops.append(op)
+            self.touched_hosts.append(R.split_url(url)[1])
+            op["_reissue_kinds"] = kinds
+            return op
+        return None
+
     def _clean_ok(self, interp, headers, url) -> bool:
         """clean stratum: the history must stay free of every known trigger pattern."""
         add = []
@@ -436,7 +596,7 @@ class Gen:
             host = r.choice(rel or HOSTS)
         else:
             host = r.choice(HOSTS)
-        return {"op": "query", "url": self.url(host)}
+        return {"op": "query", "url": self.url(host, QUERY_SCHEMES)}
 
     def op_advance(self):
         dt = self.rng.choice([0.5, 1, 4, 5, 5, 6, 10, 10, 11, 50, 100, 1000])
@@ -485,7 +645,14 @@ def gen_history(rng: random.Random, stratum: str) -> dict:
     n = rng.randint(6, 20)
     ops = []
     stress = stratum == "stress"
+    # how often an earlier cookie is set again with edited attributes
+    p_reissue = 0.0 if g.allow_upper else {"reissue": 0.30, "stress": 0.12}.get(stratum, 0.10)
     while len(ops) < n:
+        if len(ops) > 0 and rng.random() < p_reissue:
+            op = g.op_reissue(interp)
+            if op is not None:
+                ops.append(op)
+            continue
         w = rng.random()
         if w < 0.42 or len(ops) == 0:
             op = g.op_set(interp)
@@ -510,15 +677,16 @@ def gen_history(rng: random.Random, stratum: str) -> dict:
             op = {"op": "clear"}
         if op is not None:
             ops.append(op)
-    kinds = []
+    kinds, rkinds = [], []
     for op in ops:
         kinds.extend(op.pop("_kinds", []))
-    return {"stratum": stratum, "opts": opts, "ops": ops, "sweep": True, "_kinds": kinds}
+        rkinds.extend(op.pop("_reissue_kinds", []))
+    return {"stratum": stratum, "opts": opts, "ops": ops, "sweep": True, "_kinds": kinds, "_reissue_kinds": rkinds}
 
 
 def single_cookie_cases():
     """The single-cookie sub-space, enumerated completely: response host x response path x Domain attribute x
-    Path attribute x Secure x unsafe (26 180 jars); each is followed by the sweep of all 120 lattice URLs."""
+    Path attribute x Secure x unsafe (26 180 jars); each is followed by the sweep of all lattice URLs."""
     dom_choices = [None] + [bare(h) for h in HOSTS] + [".example.com", "example.com.", ".www.example.com", "le.com", "0.0.1"]
     path_choices = [None, "/", "/x", "/x/", "/x/y", "/xy", "x"]
     for host in HOSTS:
@@ -542,8 +710,64 @@ def single_cookie_cases():
                             }
 
 
+def pair_cookie_cases():
+    """The re-issue sub-space, enumerated completely: one cookie (a=k1) set by a response, then set again with the
+    same name and value by a second response of the same host; both headers range independently over Domain
+    {none, self, parent} x Path {none, /, /x} x Secure x Max-Age {none, 10}; the second response comes over http or
+    https; the lattice is swept right away or 11 s later (2 x 2 x 2 x 36 x 36 = 10 368 jars)."""
+    def headers(host):
+        hb = bare(host)
+        parent = ".".join(hb.split(".")[1:])
+        out = []
+        for d in (None, hb, parent):
+            for pa in (None, "/", "/x"):
+                for sec in (False, True):
+                    for ma in (None, "10"):
+                        parts = ["a=k1"]
+                        if d is not None:
+                            parts.append("Domain=" + d)
+                        if pa is not None:
+                            parts.append("Path=" + pa)
+                        if sec:
+                            parts.append("Secure")
+                        if ma is not None:
+                            parts.append("Max-Age=" + ma)
+                        out.append("; ".join(parts))
+        return out
+
+    for host in ("www.example.com", "a.www.example.com"):
+        hs = headers(host)
+        for scheme2 in SCHEMES:
+            for wait in (0, 11):
+                for h1 in hs:
+                    for h2 in hs:
+                        ops = [
+                            {"op": "set", "url": f"http://{host}/x/y", "headers": [h1], "mode": "headers"},
+                            {"op": "set", "url": f"{scheme2}://{host}/x/y", "headers": [h2], "mode": "headers", "reissue": True},
+                        ]
+                        if wait:
+                            ops.append({"op": "advance", "dt": wait})
+                        yield {"stratum": "pair", "opts": {"unsafe": False, "secure_origins": []}, "ops": ops, "sweep": True}
+
+
 # --------------------------------------------------------------------------------------------------
 # execution + oracle
+
+
+class _Present:
+    """What the jar's store holds at one moment, read through the public CookieJar.cookies mapping: the values, and
+    per (value, Domain, Path as the stored morsel spells them) the morsel."""
+
+    def __init__(self, jar):
+        self.values = set()
+        self.by_triple = {}
+        for _key, sc in jar.cookies.items():
+            for m in sc.values():
+                self.values.add(m.value)
+                self.by_triple[(m.value, m["domain"], m["path"])] = m
+
+    def __contains__(self, value):
+        return value in self.values
 
 
 class Exec:
@@ -558,7 +782,10 @@ class Exec:
         self.ids: dict = {}  # id -> {"op", "header", "url", "name"}
         self.outcome: dict = {}  # id -> SetOutcome (latest)
         self.history: list = []  # every reference Cookie ever stored, in order
-        self.lost: dict = {}  # id -> classification of how the jar lost a cookie the reference holds
+        self.lost: dict = {}  # (id, domain, path) -> classification of how the jar lost a cookie the reference holds
+        self.keys_of: dict = {}  # id -> reference keys (name, domain, path) it was ever stored under
+        self.src: dict = {}  # id(reference Cookie) -> {"header", "url"} that created it
+        self.reissue_counts: dict = {}
         self.blind_epochs: set = set()  # ops in which a jar without unsafe dropped an IP-host response unseen
         self.nontrivial_store = False
         self.nontrivial_sent = False
@@ -633,16 +860,47 @@ class Exec:
             # the way ClientSession feeds a response (client.py: update_cookies_from_headers(raw headers, resp.url))
             self.jar.update_cookies_from_headers(headers, URL(url))
         for h in headers:
-            p = R.parse_set_cookie(h)
-            out = self.ref.set_cookie(h, url)
-            self.rec.count("ref-set:" + out.status + (":" + out.reason if out.reason else ""))
-            if p is not None:
-                self.ids[p.value] = {"op": i, "header": h, "url": url, "name": p.name}
-                self.outcome[p.value] = out
-            if out.status == "stored":
-                self.nontrivial_store = True
-            if out.cookie is not None and out.status != "ignored":
-                self.history.append((out.cookie, i))
+            self._ref_set(i, h, url, url)
+
+    def _ref_set(self, i, h, ref_url, shown_url):
+        """Feeds one Set-Cookie header to the reference and keeps the provenance books."""
+        p = R.parse_set_cookie(h)
+        out = self.ref.set_cookie(h, ref_url)
+        self.rec.count("ref-set:" + out.status + (":" + out.reason if out.reason else ""))
+        if p is not None:
+            self.ids[p.value] = {"op": i, "header": h, "url": shown_url, "name": p.name}
+            self.outcome[p.value] = out
+        if out.status == "stored":
+            self.nontrivial_store = True
+        c = out.cookie
+        if c is not None and out.status != "ignored":
+            self.history.append((c, i))
+            self.src[id(c)] = {"header": h, "url": shown_url}
+            self.keys_of.setdefault(c.value, set()).add(c.key)
+            old = out.replaced
+            if old is not None and old.value == c.value:
+                # the same cookie (name, domain, path, value) set again: which of its attributes changed
+                ch = [n for n in ("secure", "http_only", "host_only", "persistent") if getattr(old, n) != getattr(c, n)]
+                if old.expiry != c.expiry:
+                    ch.append("expiry")
+                k = "same-cookie-set-again:" + ("+".join(ch) if ch else "nothing-changed")
+                self.reissue_counts[k] = self.reissue_counts.get(k, 0) + 1
+            elif len(self.keys_of[c.value]) > 1:
+                k = "same-name-and-value-stored-under-another-(domain,path)"
+                self.reissue_counts[k] = self.reissue_counts.get(k, 0) + 1
+
+    def _lk(self, c):
+        return (c.value, c.domain, c.path)
+
+    def _in_jar(self, c, present) -> bool:
+        """Is reference cookie `c` in the jar's store?  By its value (a unique id); when the history stored that
+        value under several (domain, path) keys, by value and the Domain / Path of the stored morsel."""
+        if len(self.keys_of.get(c.value, ())) > 1:
+            return self._lk(c) in present.by_triple
+        return c.value in present.values
+
+    def _src(self, c):
+        return self.src.get(id(c)) or self.ids[c.value]
 
     def _do_clear_pred(self, op):
         kind, arg = op["kind"], op["arg"]
@@ -675,7 +933,7 @@ class Exec:
 
     # -- bookkeeping used only to *name* a completeness miss ----------------------------------
     def jar_ids(self):
-        return {m.value: (dom, path, m) for (dom, path), sc in self.jar.cookies.items() for m in sc.values()}
+        return _Present(self.jar)
 
     def track(self, i, op):
         live = self.ref.live()
@@ -685,9 +943,9 @@ class Exec:
         present = self.jar_ids()
         self.rec.sig("store-shape", sorted((c.domain, c.path, c.name, c.host_only, c.secure, c.persistent) for c in live))
         for c in live:
-            if c.value in present or c.value in self.lost or c.expiry == now:
+            if self._in_jar(c, present) or self._lk(c) in self.lost or c.expiry == now:
                 continue
-            self.lost[c.value] = self._classify_loss(c, i, op, present)
+            self.lost[self._lk(c)] = self._classify_loss(c, i, op, present)
 
     def _classify_loss(self, c, i, op, present) -> str:
         """Name how the jar lost cookie `c` that the reference still holds (reads the history, never ids)."""
@@ -746,7 +1004,11 @@ class Exec:
         jar_host_only = host_only
         rec.count("queries")
         expected = ref.cookies_for(url)
-        by_value = {c.value: c for c in ref.cookies.values()}
+        # a value names one Set-Cookie header, or that header re-issued with edited attributes (same name, same
+        # value): several reference cookies can carry it when a re-issue changed the (domain, path) key
+        by_value: dict = {}
+        for c in ref.cookies.values():
+            by_value.setdefault(c.value, []).append(c)
         names_sent = set()
         scheme, host, port, path = R.split_url(url)
         if got:
@@ -756,17 +1018,32 @@ class Exec:
             names_sent.add(name)
             mech = None
             info = self.ids.get(value)
-            c = by_value.get(value)
+            cands = by_value.get(value)
             if info is None:
                 mech, why = "leak:unknown-cookie-value", "value was never issued by a Set-Cookie of this history"
             elif name != info["name"] or key != name:
                 mech, why = "corrupt:cookie-name-value-mismatch", f"returned under name {name!r}/{key!r}, set as {info['name']!r}"
-            elif c is None:
-                mech, why = self._classify_unstored(value)
+            elif not cands:
+                mech, why = self._classify_unstored(value, url, jar_present if jar_present is not None else self.jar_ids())
             else:
-                bad = ref.why_not(c, url)
+                # name=value on the wire is justified by any stored cookie with that name and value that may go to url
+                whys = [(ref.why_not(x, url), x) for x in cands]
+                bad, c = min(whys, key=lambda t: (len(t[0]), -t[1].creation))
+                ghost = None
+                if bad:
+                    # which edition of this value is it?  One the jar's store holds (by Domain / Path of its morsels)
+                    pres = jar_present if jar_present is not None else self.jar_ids()
+                    # and, among those, one whose domain and path are in scope (the jar looks cookies up by both)
+                    bad, c = min(
+                        whys,
+                        key=lambda t: (self._lk(t[1]) not in pres.by_triple, any(b.startswith("domain") for b in t[0]), "path" in t[0], len(t[0]), -t[1].creation),
+                    )
+                    ghost = self._ghost(value, url, cands, pres)
                 if not ref.ip_hosts and R.is_ip(host):
                     mech, why = "leak:cookie-sent-to-ip-host-without-unsafe", "P-IP: no cookies for IP hosts unless unsafe"
+                elif ghost is not None:
+                    # no stored cookie with this value may go to url, but one that was removed could have: that one is sent
+                    mech, why = self._classify_removed(*ghost)
                 elif bad:
                     mech = {
                         "domain:host-only-subdomain": "leak:host-only-cookie-sent-to-subdomain",
@@ -786,7 +1063,7 @@ class Exec:
                 self.viol.append(
                     (
                         self._final(mech),
-                        f"{self.what % url} returned {name}={value} (set by {info and info['header']!r} from {info and info['url']}): {why}",
+                        f"{self.what % url} returned {name}={value} (last set by {info and info['header']!r} from {info and info['url']}): {why}",
                         {"op_index": i, "url": url, "value": value},
                     )
                 )
@@ -806,15 +1083,17 @@ class Exec:
                 if sent_value == c.value:
                     rec.count("agree:expected-and-sent")
                 else:
-                    w = by_value.get(sent_value)
+                    ws = by_value.get(sent_value) or []
+                    ws = [x for x in ws if not ref.why_not(x, url)] or ws
+                    w = max(ws, key=lambda x: len(x.path)) if ws else None
                     if w is None:
                         pass  # already reported by the soundness check above
                     elif len(w.path) >= len(c.path):
                         rec.count("agree:expected-name-sent(other-instance,path-not-shorter)")
-                    elif c.value in self.lost or c.value not in (jar_present if jar_present is not None else self.jar_ids()):
+                    elif self._lk(c) in self.lost or not self._in_jar(c, jar_present if jar_present is not None else self.jar_ids()):
                         # the reference's first choice is not in the jar (a miss of a listed kind, or of a new
                         # kind); it is not observable here because the name is sent: counted, named by its cause
-                        rec.count("info:one-per-name-hides-" + self.lost.get(c.value, "miss:not-in-jar-store"))
+                        rec.count("info:one-per-name-hides-" + self.lost.get(self._lk(c), "miss:not-in-jar-store"))
                     elif not c.host_only and host != c.domain and (c.domain, c.name) in (
                         jar_host_only if jar_host_only is not None else self.jar.host_only_cookies
                     ):
@@ -825,21 +1104,25 @@ class Exec:
                         rec.count("info:one-per-name-winner-unexplained")
                 continue
             present = jar_present if jar_present is not None else self.jar_ids()
-            mech = self.lost.get(c.value)
+            mech = self.lost.get(self._lk(c))
             if mech is None:
-                if c.value not in present:
+                if not self._in_jar(c, present):
                     # it was still in the jar's store after the previous op: this very filter_cookies removed it
-                    mech = self.lost[c.value] = self._classify_loss(c, i, {"op": "query"}, present)
+                    mech = self.lost[self._lk(c)] = self._classify_loss(c, i, {"op": "query"}, present)
                 elif not c.host_only and (c.domain, c.name) in (
                     jar_host_only if jar_host_only is not None else self.jar.host_only_cookies
                 ):
                     mech = "miss:domain-cookie-treated-as-host-only"
                 else:
                     mech = "miss:stored-cookie-not-sent"
+                    m = present.by_triple.get(self._lk(c))
+                    if m is not None and bool(m["secure"]) != c.secure:
+                        # the store holds this very cookie, but with another Secure flag than its latest Set-Cookie gave it
+                        mech += ":stored-secure-flag-differs-from-latest-set-cookie"
             self.viol.append(
                 (
                     self._final(mech),
-                    f"{self.what % url} did not return {c.name}: reference sends {c.name}={c.value} {c.describe()} (set by {self.ids[c.value]['header']!r} from {self.ids[c.value]['url']})",
+                    f"{self.what % url} did not return {c.name}: reference sends {c.name}={c.value} {c.describe()} (set by {self._src(c)['header']!r} from {self._src(c)['url']})",
                     {"op_index": i, "url": url, "value": c.value},
                 )
             )
@@ -855,30 +1138,52 @@ class Exec:
             ),
         )
 
-    def _classify_unstored(self, value):
+    def _classify_unstored(self, value, url=None, pres=None):
         out = self.outcome.get(value)
-        # last removal of this value from the reference store, if it ever was stored
-        last = None
+        # last removal of this value from the reference store, if it ever was stored; when the value was stored under
+        # several (domain, path) keys (re-issued cookie), the last removed one that could have gone to url - first of
+        # all one whose Domain / Path the jar's store still holds a morsel for
+        last = fitting = held = None
         for c, reason, detail in self.ref.removed_log:
             if c.value == value:
                 last = (c, reason, detail)
+                if url is not None and len(self.keys_of.get(value, ())) > 1 and not self.ref.why_not(c, url):
+                    fitting = last
+                    if pres is not None and self._lk(c) in pres.by_triple:
+                        held = last
+        last = held or fitting or last
         if last is not None:
-            c, reason, detail = last
-            if reason == "expired":
-                return "leak:expired-cookie-sent:" + c.expiry_source, f"expired at {c.expiry} (now {CLOCK.now}), source {c.expiry_source}"
-            if reason == "replaced":
-                by = self.ids.get(detail)
-                if by is not None and domain_attr_has_upper(by["header"]):
-                    # knock-on of the same defect: the replacement (or deletion) was not accepted by the jar
-                    return "leak:replaced-cookie-sent:replacement-had-upper-case-domain-attribute", f"was replaced by {detail} ({by['header']!r})"
-                return "leak:replaced-cookie-sent", f"was replaced by {detail}"
-            if reason in ("cleared", "cleared-domain"):
-                return "leak:cleared-cookie-sent", f"was removed by {reason}"
-            if reason == "ip-host-dropped-on-load":
-                return "accept:ip-host-cookie-without-unsafe", "cookie of an IP host loaded into a jar without unsafe"
-            return "leak:removed-cookie-sent:" + reason, ""
+            return self._classify_removed(*last)
         if out is None:
             return "leak:unknown-cookie-value", ""
+        return self._classify_never_stored(out)
+
+    def _ghost(self, value, url, live, pres):
+        """A removed reference cookie with this value that could have gone to `url` and that the jar's store still has
+        a morsel for (same Domain / Path) - unless it merely is an earlier edition of a stored one (same name,
+        domain, path): then what differs is an attribute, and the scoping clause the stored edition fails names it."""
+        gh = [e for e in self.ref.removed_log if e[0].value == value and self._lk(e[0]) in pres.by_triple and not self.ref.why_not(e[0], url)]
+        keys = {c.key for c in live}
+        if not gh or any(e[0].key in keys for e in gh):
+            return None
+        return gh[-1]
+
+    def _classify_removed(self, c, reason, detail):
+        if reason == "expired":
+            return "leak:expired-cookie-sent:" + c.expiry_source, f"expired at {c.expiry} (now {CLOCK.now}), source {c.expiry_source}"
+        if reason == "replaced":
+            by = self.ids.get(detail)
+            if by is not None and domain_attr_has_upper(by["header"]):
+                # knock-on of the same defect: the replacement (or deletion) was not accepted by the jar
+                return "leak:replaced-cookie-sent:replacement-had-upper-case-domain-attribute", f"was replaced by {detail} ({by['header']!r})"
+            return "leak:replaced-cookie-sent", f"was replaced by {detail}"
+        if reason in ("cleared", "cleared-domain"):
+            return "leak:cleared-cookie-sent", f"was removed by {reason}"
+        if reason == "ip-host-dropped-on-load":
+            return "accept:ip-host-cookie-without-unsafe", "cookie of an IP host loaded into a jar without unsafe"
+        return "leak:removed-cookie-sent:" + reason, ""
+
+    def _classify_never_stored(self, out):
         if out.reason == "domain-mismatch":
             w = out.cookie
             if w is not None and any(
@@ -983,6 +1288,10 @@ def run_case(case, rec, tmpdir, reported: dict, sample_every=0, runner=None):
     for kk in case.get("_kinds", ()):
         rec.count("gen:domain-attr:" + kk[0])
         rec.count("gen:expiry-attr:" + kk[1])
+    for kk in case.get("_reissue_kinds", ()):
+        rec.count("gen:reissue-edit:" + kk)
+    for name, n in ex.reissue_counts.items():
+        rec.count(name, n)
     for name, n in ex.ref.profile_counts.items():
         rec.count("profile:" + name, n)
     seen = set()
@@ -1041,11 +1350,11 @@ def _brief(case):
 def shards(tier, seed):
     out = []
     if tier == "quick":
-        plan = [("clean", 6, 3000), ("free", 4, 3000), ("stress", 3, 3000)]
-        n_single, n_wire, per_wire = 2, 1, 2000
+        plan = [("clean", 5, 3000), ("free", 3, 3000), ("stress", 2, 3000), ("reissue", 2, 3000)]
+        n_single, n_pair, n_wire, per_wire = 2, 1, 1, 2000
     else:
-        plan = [("clean", 28, 30000), ("free", 20, 30000), ("stress", 12, 30000)]
-        n_single, n_wire, per_wire = 6, 6, 6000
+        plan = [("clean", 26, 30000), ("free", 18, 30000), ("stress", 10, 30000), ("reissue", 10, 30000)]
+        n_single, n_pair, n_wire, per_wire = 6, 3, 6, 6000
     sub = 0
     for kind, k, per in plan:
         for _ in range(k):
@@ -1053,6 +1362,9 @@ def shards(tier, seed):
             sub += 1
     for i in range(n_single):
         out.append({"kind": "single", "sub": sub, "part": i, "parts": n_single})
+        sub += 1
+    for i in range(n_pair):
+        out.append({"kind": "pair", "sub": sub, "part": i, "parts": n_pair})
         sub += 1
     for i in range(n_wire):
         out.append({"kind": "wire", "sub": sub, "n": per_wire})
@@ -1070,7 +1382,7 @@ def run_shard(spec, rec):
     tmpdir = tempfile.mkdtemp(prefix="verif-c16-")
     reported: dict = {}
     try:
-        if kind in ("clean", "free", "stress"):
+        if kind in ("clean", "free", "stress", "reissue"):
             for _ in range(spec["n"]):
                 run_case(gen_history(rng, kind), rec, tmpdir, reported, sample_every=401)
         elif kind == "single":
@@ -1082,6 +1394,15 @@ def run_shard(spec, rec):
                 run_case(case, rec, tmpdir, reported, sample_every=1999)
             rec.count("single-cookie-cases", n)
             rec.set_exhaustive("single-cookie-lattice", True)
+        elif kind == "pair":
+            n = 0
+            for idx, case in enumerate(pair_cookie_cases()):
+                if idx % spec["parts"] != spec["part"]:
+                    continue
+                n += 1
+                run_case(case, rec, tmpdir, reported, sample_every=1499)
+            rec.count("pair-cookie-cases", n)
+            rec.set_exhaustive("same-cookie-set-twice-lattice", True)
         elif kind == "wire":
             wire_shard(spec, rng, rec, tmpdir, reported)
         else:
@@ -1195,16 +1516,7 @@ class WireExec(Exec):
                     rec.count("wire-requests")
                     self.judge(i, op["url"], wire_cookies(script.log[-1]), snap.get("present"), snap.get("host_only"))
                     for h in script.headers:
-                        p = R.parse_set_cookie(h)
-                        out = self.ref.set_cookie(h, final_url)
-                        rec.count("ref-set:" + out.status + (":" + out.reason if out.reason else ""))
-                        if p is not None:
-                            self.ids[p.value] = {"op": i, "header": h, "url": op["url"], "name": p.name}
-                            self.outcome[p.value] = out
-                        if out.status == "stored":
-                            self.nontrivial_store = True
-                        if out.cookie is not None and out.status != "ignored":
-                            self.history.append((out.cookie, i))
+                        self._ref_set(i, h, final_url, op["url"])
                 elif k == "advance":
                     CLOCK.now += op["dt"]
                     self.blind_epochs.add(i)
@@ -1244,7 +1556,7 @@ def wire_history(rng, base):
     g.touched_hosts = [R.split_url(o["url"])[1] for o in ops if o["op"] == "set"]
     for _ in range(rng.randint(6, 14)):
         ops.append(g.op_query())
-    return {"stratum": "wire", "wire": True, "base": base, "opts": case["opts"], "ops": ops, "sweep": False, "_kinds": case["_kinds"]}
+    return {"stratum": "wire", "wire": True, "base": base, "opts": case["opts"], "ops": ops, "sweep": False, "_kinds": case["_kinds"], "_reissue_kinds": case.get("_reissue_kinds", [])}
 
 
 def wire_case(case, rec, tmpdir, reported, world=None):
@@ -1272,7 +1584,7 @@ def wire_shard(spec, rng, rec, tmpdir, reported):
     world = World(spec["seed"])
     try:
         for n in range(spec["n"]):
-            case = wire_history(rng, "clean" if n % 2 else "free")
+            case = wire_history(rng, ("clean", "free", "reissue")[n % 3])
             wire_case(case, rec, tmpdir, reported, world)
     finally:
         world.close()
